@@ -233,3 +233,104 @@ Example C06_ex_fatal :
   r = RaisedFatal 3 /\ map (@ivec Z) (s_failed st) = [[7]] /\ length (s_calls st) = 2%nat /\
   map (fun i => (ivec i, istate i)) (s_heap st) = [([42], InProgress); ([8], Empty); ([9], Empty)] /\ s_store st = [].
 Proof. vm_compute. repeat split; reflexivity. Qed.
+
+(* ---------------------------------------------------------------------------------------------
+   "replaced by a freshly sampled design INSIDE THE BOUNDS": the replacement is gen_vector of the
+   problem's parameter descriptions (Model/Reroll.v): coordinate k is computed from the keys of
+   description k and draw k alone (bounds, or initial_value when there are none; precision;
+   parameter_type), and therefore lies in parameter k's own box up to half of parameter k's own step
+   (C08's gen_number / gen_vector theorems, exact rationals, default step 1e-12). *)
+From Coq Require Import QArith Qabs Lqa.
+From Artap Require Import Model.Variation Proofs.VariationProofs Model.Reroll Proofs.RerollProofs.
+Local Open Scope Q_scope.
+
+Theorem C06_replacement_reads_own_keys : forall ds draws v,
+  gen_vector_desc ds draws = Some v ->
+  length v = length ds /\ length draws = length ds /\
+  forall k d r, nth_error ds k = Some d -> nth_error draws k = Some r -> nth_error v k = Some (gen_coord d r).
+Proof. exact gen_vector_desc_coordinatewise. Qed.
+
+(* real-valued parameters: the replacement IS C08's gen_vector on each parameter's own (lb, ub, precision) ... *)
+Theorem C06_replacement_is_gen_vector : forall ds draws,
+  Forall (fun d => truncates d = false) ds ->
+  gen_vector_desc ds draws = gen_vector (map spec_of ds) draws.
+Proof. exact gen_vector_desc_real. Qed.
+
+(* ... hence inside the bounds in C08's sense (C08_gen_vector_in_box = gen_vector_in_box), parameter by parameter *)
+Theorem C06_replacement_in_bounds : forall ds draws v,
+  Forall (fun d => truncates d = false) ds -> Forall pd_wf ds -> Forall unit_draw draws ->
+  gen_vector_desc ds draws = Some v ->
+  length v = length ds /\ Forall2 q_inside (map spec_of ds) v.
+Proof. exact gen_vector_desc_real_in_box. Qed.
+
+(* any mix of real and integer-typed parameters: own_box (integer-typed = an integer less than 1 from the box) *)
+Theorem C06_replacement_in_own_box : forall ds draws v,
+  Forall pd_wf ds -> Forall unit_draw draws -> gen_vector_desc ds draws = Some v ->
+  length v = length ds /\ Forall2 own_box ds v.
+Proof. exact gen_vector_desc_in_own_box. Qed.
+
+Theorem C06_integer_replacement_in_integer_bounds : forall d r (a b : Z),
+  truncates d = true -> pd_lb d == inject_Z a -> pd_ub d == inject_Z b ->
+  pd_lb d <= gen_number r (pd_lb d) (pd_ub d) (pd_step d) <= pd_ub d ->
+  pd_lb d <= gen_coord d r <= pd_ub d.
+Proof. exact gen_coord_int_in_box. Qed.
+
+(* composed with the retry loop: the objective is only ever retried on, and the stored vector of a design
+   evaluated after re-rolls is, a design inside the box *)
+Theorem C06_retried_vectors_in_bounds : forall ds (e : env Q) (c : call Q),
+  Forall pd_wf ds -> rerolls_from ds e -> Forall2 own_box ds (e_reroll e c).
+Proof. exact retried_vectors_in_own_box. Qed.
+
+Theorem C06_stored_vector_in_bounds : forall (ltb : Q -> Q -> bool) zero roundp smul ds (e : env Q) st id i st',
+  Forall pd_wf ds -> rerolls_from ds e ->
+  nth_error (s_heap st) id = Some i -> istate i <> Evaluated ->
+  job_evaluate ltb zero roundp smul e st id = (st', Done) ->
+  Forall2 own_box ds (ivec i) ->
+  exists i', nth_error (s_heap st') id = Some i' /\ Forall2 own_box ds (ivec i').
+Proof. exact stored_vector_in_own_box. Qed.
+
+Print Assumptions C06_replacement_reads_own_keys.
+Print Assumptions C06_replacement_is_gen_vector.
+Print Assumptions C06_replacement_in_bounds.
+Print Assumptions C06_replacement_in_own_box.
+Print Assumptions C06_integer_replacement_in_integer_bounds.
+Print Assumptions C06_retried_vectors_in_bounds.
+Print Assumptions C06_stored_vector_in_bounds.
+
+(* non-vacuity: the red team's coil problem - `turns` in [10, 60] with precision 1, then `gap` in [0.2, 0.4] with
+   no precision.  gen_vector gives [35, 0.3 (to 1e-12)], inside both boxes; a gen_vector that lets the precision
+   of `turns` leak into `gap` (Model/Reroll.v gen_vector_leaky) gives [35, 0]: outside the box of `gap`. *)
+Definition ex_coil : list pdesc :=
+  [mk_pd (Some (10, 60)) 0 (Some 1) false; mk_pd (Some (2 # 10, 4 # 10)) 0 None false].
+
+Example C06_ex_mixed_descriptions :
+  Forall pd_wf ex_coil /\ Forall unit_draw [1 # 2; 1 # 2] /\ Forall (fun d => truncates d = false) ex_coil /\
+  (exists v, gen_vector_desc ex_coil [1 # 2; 1 # 2] = Some v /\ nth 0 v 0 == 35 /\
+             Qabs (nth 1 v 0 - (3 # 10)) <= 1 # 1000000000000) /\
+  (exists v, gen_vector_leaky None false ex_coil [1 # 2; 1 # 2] = Some v /\ nth 0 v 0 == 35 /\ nth 1 v 0 == 0 /\
+             ~ Forall2 own_box ex_coil v).
+Proof.
+  split; [repeat constructor; cbn; try lra; discriminate|].
+  split; [repeat constructor; cbn; lra|].
+  split; [repeat constructor|].
+  split.
+  - eexists. split; [reflexivity|]. split; vm_compute; [reflexivity|discriminate].
+  - eexists. split; [reflexivity|]. split; [vm_compute; reflexivity|]. split; [vm_compute; reflexivity|].
+    intros F. inversion F as [|? ? ? ? _ F']; subst. inversion F' as [|? ? ? ? B _]; subst.
+    unfold own_box in B. cbn in B. destruct B as [B _]. vm_compute in B. apply B. reflexivity.
+Qed.
+
+(* an integer-typed parameter with integer bounds (truncated: -2 on the 1e-12 grid is -1.9999..., int() gives -1,
+   inside [-5, -1]); `parameter_type` next to a declared precision is NOT passed to gen_number (the number stays
+   real: 0.5); a parameter without bounds is sampled from [initial_value/2, 3 initial_value/2] = [2, 6] *)
+Example C06_ex_integer_and_unbounded :
+  let ds := [mk_pd (Some (-5, -1)) 0 None true; mk_pd (Some (2 # 10, 4 # 10)) 0 (Some (1 # 2)) true; mk_pd None 4 None false] in
+  Forall pd_wf ds /\
+  exists v, gen_vector_desc ds [3 # 4; 9 # 10; 1 # 4] = Some v /\ Forall2 own_box ds v /\
+            nth 0 v 0 == -1 /\ nth 1 v 0 == 1 # 2 /\ Qabs (nth 2 v 0 - 3) <= 1 # 1000000000000.
+Proof.
+  cbv zeta. split; [repeat constructor; cbn; lra|].
+  eexists. split; [reflexivity|]. split.
+  - apply (C06_replacement_in_own_box _ [3 # 4; 9 # 10; 1 # 4]); [repeat constructor; cbn; lra|repeat constructor; cbn; lra|reflexivity].
+  - split; [vm_compute; reflexivity|]. split; vm_compute; [reflexivity|discriminate].
+Qed.
